@@ -79,6 +79,9 @@ def pattern(rng, kind, size, wf):
                 offs.append(line + 64 - rng.randrange(1, piece))
             else:
                 offs.append(line + al(rng.randrange(0, 64 - size)))
+    elif kind == 'lines':
+        # every lane in a cache line of its own: 64 transactions per instruction
+        offs = [l * 64 + al(rng.randrange(0, 64 - size)) for l in range(64)]
     elif kind == 'line_end':
         # the access ends exactly at the end of a line (the last 1..3 bytes of a line for sub-dword loads)
         offs = [rng.randrange(0, room // 64) * 64 + 64 - size for _ in range(64)]
@@ -162,6 +165,21 @@ def gen_risky(rng, i, op=None, kind=None):
         t.pop('lt', None)
         t['mask'] = FULL
     sc = {'name': 'risky%d_%s_%s' % (i, op, kind), 'nwf': nwf, 'tests': [t], 'mem': env(rng), 'dseed': rng.randrange(1 << 30)}
+    sc['noemu'] = op not in EMU_OPS
+    return sc
+
+
+def gen_window(rng, i, nwf, limit, op):
+    """Many wavefronts whose uncoalesced accesses (64 transactions each) meet the CU's limit of in-flight vector
+    accesses under a slow memory: the instruction has to wait for room (or is admitted piecewise); the kernel then
+    waits with s_waitcnt vmcnt(0) and stores the loaded registers."""
+    t = make_test(rng, op, 'lines', nwf)
+    t.pop('lt', None)
+    t['mask'] = FULL
+    sc = {'name': 'window%d_%s_%dwf_limit%d' % (i, op, nwf, limit or 512), 'nwf': nwf, 'tests': [t], 'dseed': rng.randrange(1 << 30),
+          'mem': {'lat': list(rng.choice([(150, 400), (300, 600)])), 'seed': rng.randrange(1 << 30), 'perm': rng.random() < 0.5}}
+    if limit:
+        sc['limit'] = limit
     sc['noemu'] = op not in EMU_OPS
     return sc
 
@@ -416,7 +434,7 @@ def run_component(ctx):
 
     # 1. the model
     r = ctx.tlc_expect_ok(DIRS, 'MC_VMem.tla', 'MC_VMem.cfg', coverage=True, timeout=900, workers=W)
-    ctx.log('MC_VMem (2 lanes, 8-byte lines, 10 opcodes, every EXEC, 7 addresses per lane, responses in any order): %d distinct states' % r.distinct)
+    ctx.log('MC_VMem (2 lanes, 8-byte lines, 10 opcodes, every EXEC, 7 addresses per lane, in-flight window 2, responses in any order): %d distinct states' % r.distinct)
     ctx.cov['vmem_coverage_zero_actions'] = r.coverage_zero()
     r = ctx.tlc_expect_ok(DIRS, 'MC_VMem.tla', 'MC_VMem_live.cfg', timeout=900, workers=W)
     ctx.log('MC_VMem_live (the instruction finishes under fairness): %d distinct states' % r.distinct)
@@ -425,6 +443,7 @@ def run_component(ctx):
         ctx.log('MC_VMem_3lanes: %d distinct states' % r.distinct)
     devs = {}
     for cfg, expect in (('MC_VMem_width.cfg', 'access widths as implemented'), ('MC_VMem_nosplit.cfg', 'no split at line boundaries'),
+                        ('MC_VMem_lastperbatch.cfg', 'finished-flag on the last transaction of every admitted batch'),
                         ('MC_VMem_ooo.cfg', 'last response overtaken (not a deviation of the CU: the reorder buffer excludes it)')):
         r = ctx.tlc(DIRS, 'MC_VMem.tla', cfg, timeout=600, workers=2)
         if not r.violated and not r.completed:
@@ -434,7 +453,7 @@ def run_component(ctx):
     ctx.cov['vmem_deviation_models'] = devs
 
     # 2. real CU: kernels that the unchanged tree is expected to get right ...
-    nsafe, nrisky = (90, 110) if thorough else (14, 22)
+    nsafe, nrisky = (90, 110) if thorough else (10, 20)
     safe = [gen_safe(rng, i) for i in range(nsafe)]
     t1, st1 = run_scenarios(ctx, drv, safe, 'safe')
     bad1 = validate(ctx, t1, safe, 'safe')
@@ -446,10 +465,21 @@ def run_component(ctx):
         risky = risky[:nrisky]
     t2, st2 = run_scenarios(ctx, drv, risky, 'risky')
     validate(ctx, t2, risky, 'risky')
+    # ... and the limit of in-flight accesses: a small limit (public field of the CU) with a few wavefronts, and the
+    # builder's 512 with enough wavefronts that 64-transaction instructions do not all fit
+    window = [gen_window(rng, 0, 3, 72, 'ld_dw'), gen_window(rng, 1, 4, 100, rng.choice(['st_dw', 'ld_dw2'])),
+              gen_window(rng, 2, 10, 0, 'ld_dw')]
+    if thorough:
+        window += [gen_window(rng, 3, 16, 0, 'ld_dw4'), gen_window(rng, 4, 12, 0, 'st_dw'), gen_window(rng, 5, 6, 130, 'ld_ubyte'),
+                   gen_window(rng, 6, 16, 0, 'ld_dw')]
+    t3, st3 = run_scenarios(ctx, drv, window, 'window')
+    validate(ctx, t3, window, 'window')
+    for k in st1:
+        st2[k] = st2.get(k, 0) + st3.get(k, 0)
 
     n1, nt1 = nontrivial_insts(t1)
     n2, nt2 = nontrivial_insts(t2)
-    part = {'kernels': len(safe) + len(risky), 'flat_instructions_judged': st1['flat'] + st2['flat'],
+    part = {'kernels': len(safe) + len(risky) + len(window), 'flat_instructions_judged': st1['flat'] + st2['flat'],
             'tested_instructions': st1['tested'] + st2['tested'], 'transactions': st1['reqs'] + st2['reqs'],
             'panics': st1['panics'] + st2['panics'], 'value_mismatches': st1['val_mismatch'] + st2['val_mismatch'],
             'distinct_instructions': n1 + n2, 'nontrivial_instructions': nt1 + nt2}
